@@ -9,10 +9,14 @@
   *identity* of every context value are observable.
 
   Mirrors
-    * `pypyr.context.Context.get_eval_string`   — `runEval`   (arrangement `.evalFixed`; the code
-                                                                before commit 62901c4 is `.evalOld`)
-    * `pypyr.moduleloader._ChainMapPretendDict` — `localsGetItem` / `globalsGetItem` / `globalsRaw`
-                                                   / `storeName` / `storeGlobal`
+    * `pypyr.context.Context.get_eval_string`   — `runEval false` (arrangement `.evalFixed`, the code
+                                                   NOW: one throw-away `_EvalNamespace` as globals and
+                                                   locals); `runEval true` (`.evalOld`, the code before
+                                                   commit 62901c4); `runEvalChild` (`.evalChild`, the code
+                                                   of commits 62901c4..81f45d6^, kept as a witness only)
+    * `pypyr.moduleloader._EvalNamespace` (`__getitem__`/`__setitem__`/`__delitem__`),
+      `pypyr.moduleloader._ChainMapPretendDict` — `localsGetItem` / `globalsGetItem` / `globalsRaw`
+                                                   / `storeName` / `storeGlobal` / `delName`
     * `pypyr.steps.py.run_step`, `get_save`     — `runPyStep`, `doSave`
     * `pypyr.steps.pyimport.run_step`, `Context.pystring_globals_update` — `runPyImport`
     * CPython 3.12 `LOAD_NAME/STORE_NAME/DELETE_NAME/LOAD_GLOBAL/STORE_GLOBAL`, symtable scope
@@ -51,13 +55,31 @@
       Context: a later top-level `!py y` finds it through E1's raw-slot fallback, a later
       `(lambda: y)()` does not), and `([(y := x) for x in l], y)` is a NameError unless the context
       has a key y, in which case the read sees the context's y.
-  E5  With the repaired `get_eval_string` (`eval(src, ns, ns.new_child())`): top-level `(x := a)`
-      is `STORE_NAME` → `child.__setitem__` → the child's throw-away first map. It is visible to
-      later top-level reads and inlined list comprehensions of the same expression (`LOAD_NAME`
-      walks scratch first) but NOT from a lambda or generator expression (`LOAD_GLOBAL` walks the
-      parent's maps only): `((x := a), (lambda: x)())` is a NameError.
-      Before the repair (`eval(src, ns)`, locals is globals) the same store went to
+  E5  (historical, `.evalChild`: commits 62901c4..81f45d6^, `eval(src, ns, ns.new_child())`)
+      top-level `(x := a)` is `STORE_NAME` → `child.__setitem__` → the child's throw-away first map.
+      It is visible to later top-level reads and inlined list comprehensions of the same expression
+      (`LOAD_NAME` walks scratch first) but NOT from a lambda or generator expression (`LOAD_GLOBAL`
+      walks the parent's maps only): `((x := a), (lambda: x)())` is a NameError; and E4's leftover in
+      the raw dict slot of the per-Context namespace object is still there.
+      Before 62901c4 (`.evalOld`: `eval(src, ns)`, locals is globals) the same store went to
       `ns.__setitem__` → `maps[0]` = the context: `walrus_leak_pre_fix`.
+  E5' (NOW, `.evalFixed`: commits 81f45d6 + 2f08756)
+        namespace = _EvalNamespace(*self._pystring_namespace.maps); eval(src, namespace, namespace)
+      `_EvalNamespace` is a `_ChainMapPretendDict(context, imports)` whose OWN dict instance starts as
+      `{__builtins__: builtins.__dict__}` and whose
+        `__getitem__(k)` = own dict first (`dict.get(self, k, self)`), then the ChainMap walk
+                           (context, then imports), KeyError on a miss;
+        `__setitem__`/`__delitem__` = the own dict only (never `maps[0]`).
+      So: LOAD_NAME = `__getitem__` (own → context → imports) → raw own dict (same dict again) →
+      builtins; LOAD_GLOBAL = `__getitem__` (globals is not an exact dict) → builtins; STORE_NAME =
+      `__setitem__` → own dict; STORE_GLOBAL = raw dict store → the same own dict. Every scope reads
+      and writes the same three layers in the same order, i.e. exactly what a plain `dict` of
+      (imports overlaid by context) as globals would give, except that nothing reaches the context.
+      The object is dropped after the eval: nothing but heap mutations survives; the per-Context
+      `_pystring_namespace` (its raw dict slot `hidden`) is not even handed to `eval` any more.
+      Corollary: the own dict's `__builtins__` entry stands in front of a CONTEXT key
+      `__builtins__`, in every scope (`!py __builtins__` is the builtins dict, also inside a lambda,
+      where it used to be a NameError / the context's value).
   E6  `pypyr.steps.py`: `context.copy()` is `dict.copy` → an exact `dict`; `exec(src, d)` uses it as
       globals and locals, so E1/E2 collapse: every module-level and global operation hits `d`,
       then builtins. `d['__builtins__']` and `d['save']` are set AFTER the copy and therefore hide
@@ -68,6 +90,20 @@
       class dict; functions defined in it do not see class locals.
   E8  A read of a local/cell that is not bound yet is UnboundLocalError / NameError("free
       variable…") — both `NameError` subclasses; the model has one `nameError`.
+
+  E9  NOT modelled (a defect of the CPython 3.12.1 compiler, not a rule of the language): when a list
+      comprehension is inlined, its symbols are merged into the enclosing scope's symbol table; a
+      read of such a name from ANOTHER inlined comprehension of the same code unit — or, through
+      `analyze_cells`, a free variable of a nested function of a function-like unit — is then
+      compiled against the merged entry (a hidden fast local / a cell) instead of as the global it is:
+      `[([0 for z in U], [z for y in U]) for a in T]` is an UnboundLocalError although `z` is a
+      global. The harness detects (over-approximating, `impl_c14.inlining_quirk`) programs where this
+      can happen and stops the comparison before them.
+  E10 A function object keeps the namespace object of the run that made it as `__globals__` (the
+      dict of a finished `exec`, the throw-away `_EvalNamespace` of a finished `eval`). The model
+      keeps no dead namespaces: calling a closure of an earlier run is `outOfDomain` (`callee`).
+  E11 Rebinding `__builtins__` in the namespace changes the builtins of frames created afterwards:
+      the driver rejects such programs.
 
   No imports: model files stay Mathlib-free so the driver links.
 -/
@@ -130,7 +166,7 @@ def Err.name : Err → String
 inductive R (α : Type) where
   | ok (a : α)
   | err (e : Err)
-  deriving Repr, Inhabited
+  deriving DecidableEq, Repr, Inhabited
 
 /-! ### syntax -/
 
@@ -257,8 +293,11 @@ inductive Cell where
 /-- Everything a piece of inline Python can reach.
     `ctx`     the pypyr `Context` (a dict)
     `imps`    `context._pystring_globals` (what `pyimport` registered)
-    `hidden`  the raw `dict` storage of `context._pystring_namespace` (starts as `{__builtins__}`)
-    `scratch` first map of `_pystring_namespace.new_child()` — exists for one evaluation
+    `hidden`  the raw `dict` storage of the per-Context `context._pystring_namespace` (starts as
+              `{__builtins__}`; only the pre-2f08756 arrangements ever hand that object to `eval`)
+    `scratch` exists for one evaluation. `.evalFixed`: the OWN dict of the throw-away
+              `_EvalNamespace` (starts as `{__builtins__}`); `.evalChild`: the first map of
+              `_pystring_namespace.new_child()` (starts empty)
     `ns`      the `globals` dict of one `pypyr.steps.py` execution
     `bi`      the builtins module dict
     `saved`   ghost: every `(key, value)` a `save(...)` call handed to `context.update`, in order -/
@@ -273,9 +312,10 @@ structure St where
   saved : Env
   deriving Repr, Inhabited
 
-/-- The three namespace arrangements. -/
+/-- The namespace arrangements. -/
 inductive Arr where
-  | evalFixed   -- `eval(src, ns, ns.new_child())`     (get_eval_string now)
+  | evalFixed   -- `n = _EvalNamespace(ctx, imps); eval(src, n, n)`   (get_eval_string NOW, 2f08756)
+  | evalChild   -- `eval(src, ns, ns.new_child())`     (get_eval_string 62901c4 .. 81f45d6^, historical)
   | evalOld     -- `eval(src, ns)`                      (get_eval_string before 62901c4)
   | exec        -- `exec(src, d)` with d an exact dict  (pypyr.steps.py)
   deriving DecidableEq, Repr, Inhabited
@@ -285,24 +325,30 @@ def orElse (a b : Option V) : Option V :=
   | some v => some v
   | Option.none => b
 
-/-- `locals.__getitem__(x)` (LOAD_NAME, first leg). -/
+/-- `locals.__getitem__(x)` (LOAD_NAME, first leg). `.evalFixed`: `_EvalNamespace.__getitem__` —
+    own dict, then the ChainMap walk context → imports. -/
 def localsGetItem (a : Arr) (st : St) (x : String) : Option V :=
   match a with
   | .evalFixed => orElse (st.scratch.get? x) (orElse (st.ctx.get? x) (st.imps.get? x))
+  | .evalChild => orElse (st.scratch.get? x) (orElse (st.ctx.get? x) (st.imps.get? x))
   | .evalOld => orElse (st.ctx.get? x) (st.imps.get? x)
   | .exec => st.ns.get? x
 
-/-- `globals.__getitem__(x)` (LOAD_GLOBAL on a non-exact dict) / the dict lookup for an exact dict. -/
+/-- `globals.__getitem__(x)` (LOAD_GLOBAL on a non-exact dict) / the dict lookup for an exact dict.
+    `.evalFixed`: globals IS the locals object, the same `_EvalNamespace.__getitem__`. -/
 def globalsGetItem (a : Arr) (st : St) (x : String) : Option V :=
   match a with
-  | .evalFixed => orElse (st.ctx.get? x) (st.imps.get? x)
+  | .evalFixed => orElse (st.scratch.get? x) (orElse (st.ctx.get? x) (st.imps.get? x))
+  | .evalChild => orElse (st.ctx.get? x) (st.imps.get? x)
   | .evalOld => orElse (st.ctx.get? x) (st.imps.get? x)
   | .exec => st.ns.get? x
 
-/-- `PyDict_GetItem(globals, x)`: the raw dict slot of the globals object (LOAD_NAME, second leg). -/
+/-- `PyDict_GetItem(globals, x)`: the raw dict slot of the globals object (LOAD_NAME, second leg).
+    `.evalFixed`: the own dict of the throw-away namespace. -/
 def globalsRaw (a : Arr) (st : St) (x : String) : Option V :=
   match a with
-  | .evalFixed => st.hidden.get? x
+  | .evalFixed => st.scratch.get? x
+  | .evalChild => st.hidden.get? x
   | .evalOld => st.hidden.get? x
   | .exec => st.ns.get? x
 
@@ -314,25 +360,30 @@ def loadName (a : Arr) (st : St) (x : String) : Option V :=
 def loadGlobal (a : Arr) (st : St) (x : String) : Option V :=
   orElse (globalsGetItem a st x) (st.bi.get? x)
 
-/-- STORE_NAME: `locals.__setitem__` — for a ChainMap that is `maps[0][x] = v`. -/
+/-- STORE_NAME: `locals.__setitem__` — for a ChainMap that is `maps[0][x] = v`; for
+    `_EvalNamespace` it is `dict.__setitem__(self, x, v)`: the own dict. -/
 def storeName (a : Arr) (st : St) (x : String) (v : V) : St :=
   match a with
   | .evalFixed => { st with scratch := st.scratch.set x v }
+  | .evalChild => { st with scratch := st.scratch.set x v }
   | .evalOld => { st with ctx := st.ctx.set x v }
   | .exec => { st with ns := st.ns.set x v }
 
-/-- STORE_GLOBAL: `PyDict_SetItem(globals, x, v)` — the raw dict slot. -/
+/-- STORE_GLOBAL: `PyDict_SetItem(globals, x, v)` — the raw dict slot (for `.evalFixed` that is the
+    very dict `__setitem__` writes). -/
 def storeGlobal (a : Arr) (st : St) (x : String) (v : V) : St :=
   match a with
-  | .evalFixed => { st with hidden := st.hidden.set x v }
+  | .evalFixed => { st with scratch := st.scratch.set x v }
+  | .evalChild => { st with hidden := st.hidden.set x v }
   | .evalOld => { st with hidden := st.hidden.set x v }
   | .exec => { st with ns := st.ns.set x v }
 
 /-- DELETE_NAME / DELETE_GLOBAL at module level (statements only exist under `.exec`; the other
-    two arms say what the mapping protocol would do). `none` = NameError. -/
+    arms say what the mapping protocol would do). `none` = NameError. -/
 def delName (a : Arr) (st : St) (x : String) : Option St :=
   match a with
   | .evalFixed => if (st.scratch.get? x).isSome then some { st with scratch := st.scratch.erase x } else Option.none
+  | .evalChild => if (st.scratch.get? x).isSome then some { st with scratch := st.scratch.erase x } else Option.none
   | .evalOld => if (st.ctx.get? x).isSome then some { st with ctx := st.ctx.erase x } else Option.none
   | .exec => if (st.ns.get? x).isSome then some { st with ns := st.ns.erase x } else Option.none
 
@@ -368,6 +419,7 @@ structure Scope where
   kind : Kind
   chain : List Nat          -- frames, innermost first
   explicit : List String    -- explicit globals of the module-level code (E4)
+  base : Nat := 0           -- heap size when this evaluation / py step started (see `callee`)
   deriving Repr, Inhabited
 
 inductive Hit where
@@ -543,12 +595,16 @@ inductive Callee where
   | clo (c : Closure)
   | bad (e : Err)
 
-def callee (heap : List Cell) : V → Callee
+/-- What a call finds. A function object made by an EARLIER evaluation / py step (heap index below
+    `base`) still has that run's namespace object as its `__globals__` — the dict of a finished
+    `exec`, the throw-away namespace of a finished `eval` — which this model does not keep: calling
+    it is outside the modelled domain. Function objects of the current run share its namespace. -/
+def callee (heap : List Cell) (base : Nat) : V → Callee
   | .tok .bi _ => .bad .outOfDomain
   | .tok .special _ => .bad .outOfDomain
   | .ref r =>
     match heap[r]? with
-    | some (.clo c) => .clo c
+    | some (.clo c) => if r < base then .bad .outOfDomain else .clo c
     | some (.cls _) => .bad .outOfDomain     -- instantiating a class: not modelled
     | _ => .bad .typeError
   | _ => .bad .typeError
@@ -580,7 +636,7 @@ def evalExpr (a : Arr) : Nat → Scope → Expr → St → R V × St
       | (.ok vf, st1) =>
         match evalList a fuel sc args st1 with
         | (.err er, st2) => (.err er, st2)
-        | (.ok vs, st2) => callFn a fuel sc.explicit vf vs st2
+        | (.ok vs, st2) => callFn a fuel sc.explicit sc.base vf vs st2
     | .append t e1 =>
       match evalExpr a fuel sc t st with
       | (.err er, st1) => (.err er, st1)
@@ -667,10 +723,10 @@ def compLoop (a : Arr) : Nat → Scope → Nat → Expr → String → List Expr
               | (.ok acc2, st4) => compLoop a fuel sc fr elt t cs rest src (i + 1) acc2 st4
 
 /-- Call a value with positional arguments. -/
-def callFn (a : Arr) : Nat → List String → V → List V → St → R V × St
-  | 0, _, _, _, st => (.err .outOfFuel, st)
-  | fuel + 1, explicit, vf, vs, st =>
-    match callee st.heap vf with
+def callFn (a : Arr) : Nat → List String → Nat → V → List V → St → R V × St
+  | 0, _, _, _, _, st => (.err .outOfFuel, st)
+  | fuel + 1, explicit, base, vf, vs, st =>
+    match callee st.heap base vf with
     | .bad er => (.err er, st)
     | .clo c =>
       if c.params.length != vs.length then (.err .typeError, st) else
@@ -678,7 +734,7 @@ def callFn (a : Arr) : Nat → List String → V → List V → St → R V × St
       let st1 := (st.alloc (.frame { declared := fnDeclared c.params c.globals c.body c.ret,
                                       globals := c.globals, isComp := false,
                                       vars := c.params.zip vs })).2
-      let sc : Scope := { kind := .func, chain := fr :: c.chain, explicit := explicit }
+      let sc : Scope := { kind := .func, chain := fr :: c.chain, explicit := explicit, base := base }
       match runBody a fuel sc c.body st1 with
       | (.err er, st2) => (.err er, st2)
       | (.ok _, st2) => evalExpr a fuel sc c.ret st2
@@ -791,15 +847,48 @@ def execBlock (a : Arr) (fuel : Nat) (sc : Scope) : List Stmt → St → R Unit 
 
 /-! ### the three pypyr entry points -/
 
+/-- `dict.__setitem__(self, '__builtins__', builtins.__dict__)` of `_ChainMapPretendDict.__init__`:
+    what the own dict of a new namespace object holds. -/
+def ownInit : Env := [("__builtins__", builtinsTok)]
+
 /-- `Context.get_eval_string(src)` / `PyString.get_value(context)`:
-    `eval(src, self._pystring_namespace, self._pystring_namespace.new_child())`
-    (`old = true`: `eval(src, self._pystring_namespace)`). The child and its first map are dropped
-    afterwards; the raw dict slot of `_pystring_namespace` lives on with the context. -/
+    `namespace = _EvalNamespace(*self._pystring_namespace.maps); eval(src, namespace, namespace)`
+    — a NEW namespace object per evaluation (own dict `{__builtins__}`), dropped afterwards.
+    (`old = true`: the code before 62901c4, `eval(src, self._pystring_namespace)`: no per-evaluation
+    object at all.) -/
 def runEval (old : Bool) (fuel : Nat) (st : St) (e : Expr) : R V × St :=
   let a : Arr := if old then .evalOld else .evalFixed
-  let sc : Scope := { kind := .module, chain := [], explicit := e.compWalrus }
-  match evalExpr a fuel sc e { st with scratch := [] } with
+  let sc : Scope := { kind := .module, chain := [], explicit := e.compWalrus, base := st.heap.length }
+  match evalExpr a fuel sc e { st with scratch := if old then [] else ownInit } with
   | (r, st1) => (r, { st1 with scratch := [] })
+
+/-- Historical (commits 62901c4 .. 81f45d6^):
+    `eval(src, self._pystring_namespace, self._pystring_namespace.new_child())`. The child and its
+    first map are dropped afterwards; the raw dict slot of `_pystring_namespace` lives on with the
+    context. Kept for the witness `comp_walrus_leftover_pre_fix` only. -/
+def runEvalChild (fuel : Nat) (st : St) (e : Expr) : R V × St :=
+  let sc : Scope := { kind := .module, chain := [], explicit := e.compWalrus, base := st.heap.length }
+  match evalExpr .evalChild fuel sc e { st with scratch := [] } with
+  | (r, st1) => (r, { st1 with scratch := [] })
+
+/-! ### session operations that are not inline Python (the harness interleaves them) -/
+
+/-- `context.update(kvs)` — what steps like `pypyr.steps.set` / `contextsetf` / `default` end in. -/
+def runCtxSet (st : St) (kvs : Env) : St := { st with ctx := st.ctx.update kvs }
+
+/-- `del context[k]` for the keys present (`pypyr.steps.contextclear`). -/
+def runCtxDel (st : St) (ks : List String) : St := { st with ctx := ks.foldl Env.erase st.ctx }
+
+/-- `pypyr.steps.contextclearall.run_step`: `context.clear(); context.pystring_globals_clear()`. -/
+def runClearAll (st : St) : St := { st with ctx := [], imps := [] }
+
+/-- `Context.__getstate__` / `__setstate__` round trip (`pickle.loads(pickle.dumps(c))`,
+    `copy.deepcopy(c)`, `copy.copy(c)`), continuing with the rehydrated object: `__dict__` (with
+    `_pystring_globals`) travels, the dict content travels, `_pystring_namespace` is rebuilt as
+    `_ChainMapPretendDict(self, self._pystring_globals)` — a new raw dict slot `{__builtins__}`.
+    On the binding level (keys ↦ the objects' tokens / heap cells) that is the identity except for
+    the rebuilt slot. -/
+def runRehydrate (st : St) : St := { st with hidden := ownInit }
 
 /-- `globals = context.copy(); globals['__builtins__'] = …; globals['save'] = get_save(context, globals)`. -/
 def pyStepNs (ctx : Env) : Env := (ctx.set "__builtins__" builtinsTok).set "save" saveTok
@@ -807,7 +896,7 @@ def pyStepNs (ctx : Env) : Env := (ctx.set "__builtins__" builtinsTok).set "save
 /-- `pypyr.steps.py.run_step` (the `py` form): `exec(context['py'], globals)`; the namespace dict
     is dropped afterwards, the context keeps exactly what `save` wrote. -/
 def runPyStep (fuel : Nat) (st : St) (b : List Stmt) : R Unit × St :=
-  let sc : Scope := { kind := .module, chain := [], explicit := blockExplicit b }
+  let sc : Scope := { kind := .module, chain := [], explicit := blockExplicit b, base := st.heap.length }
   match execBlock .exec fuel sc b { st with ns := pyStepNs st.ctx } with
   | (r, st1) => (r, { st1 with ns := [] })
 
